@@ -159,7 +159,10 @@ def run_cases(cases, classes):
     """run the cases on real servers (a fresh server every 40 cases); fill in 'impl'"""
     sc = Script(classes)
     script = {n: (lambda *a, _n=n: sc.next(_n, a)) for n in ALL_ADAPTER}
-    for base in range(0, len(cases), 40):
+    # a fresh server every 40 cases, except one long session of 400 requests on the same server (behaviour must not
+    # depend on how many requests a connection has already served)
+    bounds = [(0, min(400, len(cases)))] + [(b, b + 40) for b in range(400, len(cases), 40)]
+    for base, top in bounds:
         with fixture.patched() as env:
             ad = fixture.metadata_adapter(script)
             h = fixture.make_handler()
@@ -167,7 +170,7 @@ def run_cases(cases, classes):
             srv = fixture.start_meta(env, ad, handler=h)
             fixture.feed(srv, '1|MPI|S|ARI.version|S|1.8.3\r\n')
             fixture.drain(srv)
-            for case in cases[base:base + 40]:
+            for case in cases[base:top]:
                 line = case.get('line')
                 if line is None:
                     line = wire.encode_line(case['rid'].encode(), case['meth'], case['q'], b'\r\n').decode('ascii')
